@@ -101,4 +101,90 @@ def b2Step (P : B2Par) (s : B2Sys) : B2Event → B2Sys
   | .srvExpire => { s with srv := none }
   | .cliExpire => { s with cli := none }
 
+
+/-! ## the composed Block1 system: libcoap client sending a body (PUT) ∘ network ∘ libcoap server, SINGLE_BODY
+
+Client: `coap_add_data_large_request` (`addDataLarge`) for the first message, `xmitB1Step` for the others; server:
+`srcvStep` for ONE lg_srcv (one resource, one Request-Tag), answering 2.31 with Block1 (NUM of the request, SZX of the
+request — or the server's maximum for block 0, "Check to see if block size is getting forced down"), an empty ACK for a
+last block that is not the last to arrive, the application's response (no Block1 option in single-body mode) after a
+delivery, 4.08 / 4.00 otherwise.  Network and schedule as above. -/
+
+/-- a Block1 request datagram -/
+structure Req1 where
+  num : Nat
+  m : Nat
+  szx : Nat
+  payload : Bytes
+  size1 : Option Nat
+  deriving Repr, DecidableEq
+
+structure B1Par where
+  body : Bytes
+  maxSize : Nat                 -- arguments of coap_add_data_large_request / addDataLarge
+  tokLen : Nat
+  optBytes : Nat
+  lastOpt : Nat
+  blk : Option Nat
+  maxBlkC : Nat                 -- the client's COAP_BLOCK_MAX_SIZE
+  rtagLen : Nat
+  maxBlk : Nat                  -- the server's COAP_BLOCK_MAX_SIZE
+  room : Nat                    -- room of a follow-up request PDU
+  cap : Nat
+  junk : UInt8
+
+structure B1Sys where
+  cli : Option LgXmit := none   -- the client's lg_xmit for the token
+  srv : Option Srcv := none     -- the server's lg_srcv for resource + Request-Tag
+  reqs : List Req1 := []        -- request datagrams sent so far
+  rsps : List (Bool × Option (Nat × Nat)) := []   -- responses sent so far: (class 2 ?, Block1 option (NUM, SZX))
+  outs : List SrcvOut := []     -- what the server did / its application saw, oldest first
+
+inductive B1Event where
+  | appPut                      -- the client application hands the body to libcoap and sends the request
+  | reqArrives (i : Nat)
+  | rspArrives (j : Nat)
+  | srvExpire
+  | cliExpire
+  deriving Repr, DecidableEq
+
+/-- responses the server sends for a request and what `srcvStep` made of it -/
+def b1Responses (P : B1Par) (d : Req1) (out : SrcvOut) : List (Bool × Option (Nat × Nat)) :=
+  match out with
+  | .cont =>
+    if d.m = 1 then [(true, some (d.num, if d.num = 0 ∧ P.maxBlk ≠ 0 ∧ P.maxBlk < d.szx then P.maxBlk else d.szx))]  -- 2.31
+    else []                                   -- "Last chunk - but not all in": empty ACK
+  | .deliver _ _ => [(true, none), (false, none)]   -- whatever the application answers (2.04 / an error), no Block1 option
+  | .fail => [(false, none)]                  -- 4.08 / 5.00
+  | .undersized => [(false, none)]            -- 4.00
+
+def b1Step (P : B1Par) (s : B1Sys) : B1Event → B1Sys
+  | .appPut =>
+    match addDataLarge P.maxSize P.tokLen P.optBytes P.lastOpt P.blk P.maxBlkC P.body.length P.rtagLen with
+    | some r =>
+      if r.lgXmit then
+        match r.blockVal with
+        | some v => { s with cli := some { data := P.body, blkSize := r.blkSize },
+                             reqs := s.reqs ++ [⟨v / 16, (v / 8) % 2, v % 8, P.body.take r.payload, some P.body.length⟩] }
+        | none => s
+      else s                                  -- one message is enough: not a block-wise transfer
+    | none => s                               -- refused
+  | .reqArrives i =>
+    match s.reqs[i]? with
+    | some d =>
+      let res := srcvStep P.cap P.junk P.maxBlk s.srv d.num d.m d.szx d.payload d.size1
+      { s with srv := res.1, outs := s.outs ++ [res.2], rsps := s.rsps ++ b1Responses P d res.2 }
+    | none => s
+  | .rspArrives j =>
+    match s.rsps[j]?, s.cli with
+    | some (ok, blk), some x =>
+      let res := xmitB1Step x P.room ok blk
+      { s with cli := res.1,
+               reqs := s.reqs ++ (match res.2 with
+                                  | .sendNext n m sx p => [⟨n, m, sx, p, some P.body.length⟩]
+                                  | _ => []) }
+    | _, _ => s                               -- no such datagram / no lg_xmit: the handler sees the response
+  | .srvExpire => { s with srv := none }
+  | .cliExpire => { s with cli := none }
+
 end Coap.Block
